@@ -290,11 +290,16 @@ func (r *result) val(v ssa.Value) aval {
 	if p, ok := r.pin[v]; ok {
 		return p
 	}
-	if c, ok := v.(*ssa.Const); ok {
+	switch c := v.(type) {
+	case *ssa.Const:
 		if c.Value != nil {
 			return aval{k: kConst, c: c.Value}
 		}
 		return aval{k: kNil}
+	case *ssa.Function:
+		return aval{k: kNonNil, fn: c}
+	case *ssa.Global:
+		return nonnil("&" + c.Name())
 	}
 	if a, ok := r.env[v]; ok {
 		return a
@@ -1024,6 +1029,10 @@ func (an *analyzer) call(x *ssa.Call, get func(ssa.Value) aval, depth int, res *
 	if c.IsInvoke() {
 		recv := get(c.Value)
 		if recv.k == kBot {
+			return bot
+		}
+		if recv.k == kNil {
+			res.hazards = append(res.hazards, hazard{x, x, "method " + c.Method.Name() + " called on a nil " + typeShort(c.Value.Type())})
 			return bot
 		}
 		res.calls = append(res.calls, callObs{site: x, name: "invoke " + typeShort(c.Value.Type()) + "." + c.Method.Name(), args: append([]aval{recv}, args...), depth: depth})
